@@ -153,7 +153,7 @@ def step (st : St) (ws : List String) (j : Json) : St × String :=
     let single := ents.all fun (_, e) => jnat (jget e "n_total") ≤ 1
     let predLogged : Option Bool := match firstCmd with
       | some ic =>
-        if ic < firstClaim && single && mode == "crash" && domain == "kv" && cut < firstClaim then
+        if ic < firstClaim && single && mode == "crash" && (domain == "kv" || domain == "kvcold") && cut < firstClaim then
           let seg := mks.take ic
           let hasObj := seg.any (fun m => match m with | .objects _ => true | _ => false)
           let nT := (seg.filter (· == .taskStore)).length
